@@ -8,6 +8,8 @@
    "does the peer have at least one stored address" (scores/eviction are C10); multiaddresses are
    reduced to the peer they name. *)
 From Coq Require Import List NArith Bool.
+From V.C10 Require Model.
+From V.Mgr Require Import DialShape.
 Import ListNotations.
 Open Scope N_scope.
 
@@ -147,8 +149,9 @@ Inductive ev :=
 | TrPendingInbound (c : conn)
 | AcceptDone (c : conn) (ok : bool)               (* the accept future of c resolves *)
 | Closed (p : peer) (c : conn)                    (* TransportManagerEvent::ConnectionClosed *)
-| AllocConn.                                      (* a transport draws an id from the shared counter
+| AllocConn                                       (* a transport draws an id from the shared counter
                                                      (next_connection_id) for an inbound socket *)
+| CmdDialShape (a : V.C10.Model.maddr).           (* dial_address with an arbitrary multiaddress *)
 
 Inductive out :=
 | CallOpen (c : conn) | CallDial (c : conn) | CallNegotiate (c : conn) | CallCancel (c : conn)
@@ -201,8 +204,40 @@ Definition do_dial_addr (L : limits) (m : mgr) (p : peer) (dial_fails : bool) : 
     | GateInProgress => (m0, [Ret RET_OK])
     | GateOk =>
         let m1 := set_state m0 p (Dialing c) in
-        if dial_fails then (m1, [CallDial c; Ret RET_TRANSPORT])
+        if dial_fails then
+          (* the dial could not be started: the dial record is cleared again (`fix:` commit;
+             before it the peer stayed in Dialing forever) *)
+          (set_state m1 p (st_on_dial_failure (Dialing c) c), [CallDial c; Ret RET_TRANSPORT])
         else (set_pending m1 (insert_key c p (pending m1)), [CallDial c; Ret RET_OK])
+    end.
+
+(* dial_address with an address routed to a transport that is not installed (WebSocket in the
+   harness): as above, but the transport is never called *)
+Definition do_dial_addr_missing (L : limits) (m : mgr) (p : peer) : mgr * list out :=
+  if limit_reached (max_out L) (outs m) then (m, [Ret RET_LIMIT])
+  else
+    let c := next_conn m in
+    let m0 := set_known (bump_conn m) p in
+    match can_dial (state_of m0 p) with
+    | GateConnected => (m0, [Ret RET_CONNECTED])
+    | GateInProgress => (m0, [Ret RET_OK])
+    | GateOk =>
+        (set_state (set_state m0 p (Dialing c)) p (st_on_dial_failure (Dialing c) c),
+         [Ret RET_NOT_SUPPORTED])
+    end.
+
+(* the registered listen address of the harness node: /ip4/<private 1>/tcp/7000, stored with and
+   without the local peer id *)
+Definition LISTEN0 : V.C10.Model.maddr := [V.C10.Model.Ip4 V.C10.Model.Priv 1; V.C10.Model.Tcp 7000].
+Definition LISTEN : list V.C10.Model.maddr := [LISTEN0; LISTEN0 ++ [V.C10.Model.P2p LOCAL]].
+
+Definition do_dial_shape (L : limits) (m : mgr) (a : V.C10.Model.maddr) : mgr * list out :=
+  if limit_reached (max_out L) (outs m) then (m, [Ret RET_LIMIT])
+  else
+    match dial_shape LISTEN a with
+    | SvRefuse code => (m, [Ret code])
+    | SvTcp p => do_dial_addr L m p false
+    | SvWs p => do_dial_addr_missing L m p
     end.
 
 (* TransportEvent::DialFailure *)
@@ -309,6 +344,7 @@ Definition step (L : limits) (m : mgr) (e : ev) : mgr * list out :=
   | Closed p c =>
       let '(m1, rep) := do_closed m p c in (m1, if rep then [EvClosed p c] else [])
   | AllocConn => (bump_conn m, [Ret (RET_ALLOC + next_conn m)])
+  | CmdDialShape a => do_dial_shape L m a
   end.
 
 Fixpoint run (L : limits) (m : mgr) (es : list ev) : mgr * list (list out) :=
